@@ -320,8 +320,12 @@ func runC14(tier string) int {
 				t0 := time.Now()
 				opt := storemc.Options{Engine: r.eng, Policy: p.p, DataVer: p.v, Leader: true, EngineWAL: true, KeepBackup: 4}
 				st, ok := storemc.RunBackups(opt, col, label, r.pool, r.maxLen, r.other, dl)
+				opt.KeepBackup = 8
+				ic, ok2 := storemc.RunInterleaved(opt, col, label, storemc.BackupPool[:5], dl)
+				ok = ok && ok2
 				opt.KeepBackup = 2
 				pc := storemc.RunPurge(opt, col, label)
+				pc += ic
 				mu.Lock()
 				cases += st.Cases + pc
 				restores += st.Restores
